@@ -204,7 +204,28 @@ impl Encode for ChunkEncoder {
         while i < b.len() {
             let n = if self.chunks.is_empty() { b.len() } else { self.chunks[k % self.chunks.len()].max(1) };
             let j = (i + n).min(b.len());
-            w.write_all(&b[i..j])?;
+            // the pieces reach the writer through the different entry points of io::Write in turn: write_all, a plain
+            // write loop, and gathered writes (two slices per call)
+            match k % 3 {
+                0 => w.write_all(&b[i..j])?,
+                1 => {
+                    let mut rest = &b[i..j];
+                    while !rest.is_empty() {
+                        let n = w.write(rest)?;
+                        anyhow::ensure!(n > 0, "verif: the writer accepted nothing");
+                        rest = &rest[n..];
+                    }
+                }
+                _ => {
+                    let mut rest = &b[i..j];
+                    while !rest.is_empty() {
+                        let mid = rest.len() / 2;
+                        let n = w.write_vectored(&[std::io::IoSlice::new(&rest[..mid]), std::io::IoSlice::new(&rest[mid..])])?;
+                        anyhow::ensure!(n > 0, "verif: the writer accepted nothing");
+                        rest = &rest[n..];
+                    }
+                }
+            }
             i = j;
             k += 1;
         }
